@@ -443,15 +443,22 @@ pub fn run(cli: &Cli) -> Report {
         // a deposit without a long side (no long token or escrow accounts); it can also be closed with a crafted account list
         Slot { is_deposit: true, market: 0, owner: w.user, nonce: [7; 32], amounts: (0, 9_000_000), unreachable_min: false, price_dependent_min: 0, long_path: false, short_only: true },
     ];
-    let used: Vec<usize> = if th { (0..7).collect() } else if props == P22 { vec![0, 1, 2, 5] } else { vec![0, 1, 2, 6] };
-    let mut acts = vec![];
-    if used.contains(&6) {
-        acts.extend([Act::CloseCrafted(6, Who::Owner), Act::CloseCrafted(6, Who::Keeper), Act::CloseCrafted(6, Who::Stranger)]);
-    }
-    for i in used {
-        acts.extend([Act::Create(i), Act::Exec(i, Who::Keeper), Act::Exec(i, Who::Stranger), Act::Close(i, Who::Owner), Act::Close(i, Who::Keeper), Act::Close(i, Who::Stranger)]);
-    }
-    acts.extend([Act::Adv(30), Act::Adv(100), Act::Refresh, Act::Reprice]);
+    // slot alphabets: the quick tier explores one, the thorough tier two (all seven slots together do not fit: every state
+    // carries a copy of the ledger)
+    let alphabets: Vec<Vec<usize>> = if th { vec![(0..5).collect(), vec![0, 5, 6]] } else if props == P22 { vec![vec![0, 1, 2, 5]] } else { vec![vec![0, 1, 2, 6]] };
+    let acts_of = |used: &Vec<usize>, extra: &Vec<Act>| -> Vec<Act> {
+        let mut acts = vec![];
+        if used.contains(&6) {
+            acts.extend([Act::CloseCrafted(6, Who::Owner), Act::CloseCrafted(6, Who::Keeper), Act::CloseCrafted(6, Who::Stranger)]);
+        }
+        for &i in used {
+            acts.extend([Act::Create(i), Act::Exec(i, Who::Keeper), Act::Exec(i, Who::Stranger), Act::Close(i, Who::Owner), Act::Close(i, Who::Keeper), Act::Close(i, Who::Stranger)]);
+        }
+        acts.extend([Act::Adv(30), Act::Adv(100), Act::Refresh, Act::Reprice]);
+        acts.extend(extra.iter().copied());
+        acts
+    };
+    let mut acts: Vec<Act> = vec![];
     let mut starts = vec![St { db: db.clone(), now: 1_000, phase: [Phase::Absent; 7], snap: [Snapshot::default(); 7] }];
     if props == P22 {
         // fee claims and keeper transfers, and start states that position activity would leave behind
@@ -520,7 +527,8 @@ pub fn run(cli: &Cli) -> Report {
             starts.push(St { db: d, now: 1_000, phase: [Phase::Absent; 7], snap: [Snapshot::default(); 7] });
         }
     }
-    let life = Life { w, acts, slots, props };
+    let extra = acts;
+    let mut life = Life { w, acts: acts_of(&alphabets[0], &extra), slots, props };
     if let Some(rv) = &cli.replay {
         if rv["ctx"]["machine"] == "glvlife" {
             crate::glvchk::lifecycle(&mut rep, cli);
@@ -530,14 +538,20 @@ pub fn run(cli: &Cli) -> Report {
             crate::perp::run_section(&mut rep, cli, if props == P22 { crate::perp::P22 } else { crate::perp::P23 });
             return rep;
         }
+        let k = rv["ctx"]["alphabet"].as_u64().unwrap_or(0) as usize;
+        life.acts = acts_of(&alphabets[k.min(alphabets.len() - 1)], &extra);
         e2::replay_into(&mut rep, &life, &starts, rv);
         return rep;
     }
     let depth = if th { 6 } else { 5 };
-    let o = e2::explore(&mut rep, "deposit/withdrawal lifecycles over two markets", &life, starts, &e2::Config { depth, max_states: 5_000_000 }, json!({"thorough": th}));
-    for needed in ["Create:ok", "Exec:ok", "Exec:err", "Close:ok", "Close:err"] {
-        if o.histogram.get(needed).copied().unwrap_or(0) == 0 {
-            rep.machinery(format!("vacuous exploration: outcome {needed} never occurred"));
+    for (k, used) in alphabets.iter().enumerate() {
+        life.acts = acts_of(used, &extra);
+        let name = if k == 0 { "deposit/withdrawal lifecycles over two markets".to_string() } else { format!("deposit/withdrawal lifecycles over two markets (slot alphabet {used:?})") };
+        let o = e2::explore(&mut rep, &name, &life, starts.clone(), &e2::Config { depth, max_states: 5_000_000 }, json!({"thorough": th, "alphabet": k}));
+        for needed in ["Create:ok", "Exec:ok", "Exec:err", "Close:ok", "Close:err"] {
+            if o.histogram.get(needed).copied().unwrap_or(0) == 0 {
+                rep.machinery(format!("vacuous exploration: outcome {needed} never occurred"));
+            }
         }
     }
     // position orders, liquidations and fee claims with real positions (second machine)
